@@ -1,6 +1,8 @@
 import CkbVerif.Model.Reward
 import CkbVerif.Model.Dao
+import CkbVerif.Model.DaoRaw
 import CkbVerif.Lemmas.Dao
+import CkbVerif.Lemmas.DaoRaw
 import CkbVerif.Lemmas.Reward
 import CkbVerif.Lemmas.RewardWalk
 import CkbVerif.Lemmas.RewardVerifier
@@ -641,6 +643,276 @@ theorem secondary_block_reward_eq (ser : Nat) (e : Epoch) (t : Nat) (pd : DaoFie
     obtain ⟨g2, hg, hm⟩ := h
     obtain ⟨h0, _, rfl⟩ := minerIssuance_ok.1 hm
     exact ⟨ht, g2, hg, h0, rfl⟩
+
+/-- **the issuance splits exactly, over every chain**: along any chain segment whose headers obey
+the rule, the growth of `C` is the scheduled issuance `Σ (primary + g2)`, and the secondary part
+splits with no remainder into (miners' secondary rewards `Σ ⌊g2·U/C⌋`) + (NervosDAO interest paid
+out) + (growth of `S`: unclaimed interest and the treasury's share, which no rule ever pays out —
+the burnt part). Hence `C_n − C_0 = Σ primary + Σ miner secondary + Σ interest + (S_n − S_0)`:
+everything that is minted is primary issuance, a miner's secondary share or DAO interest, and the
+rest of the secondary issuance stays in `S`. -/
+theorem issuance_split_over_chain (p d : DaoField) (bs : List BlockTotals)
+    (h : daoChain p bs = .ok d) :
+    d.c = p.c + sumOf (·.primary) bs + sumOf (·.g2) bs ∧
+    d.s + sumOf (·.interests) bs + minerSum p bs = p.s + sumOf (·.g2) bs ∧
+    d.c + p.s = p.c + sumOf (·.primary) bs + minerSum p bs + sumOf (·.interests) bs + d.s ∧
+    minerSum p bs ≤ sumOf (·.g2) bs := by
+  have hadd : ∀ l : List BlockTotals,
+      sumOf (fun b => b.primary + b.g2) l = sumOf (·.primary) l + sumOf (·.g2) l := by
+    intro l
+    induction l with
+    | nil => rfl
+    | cons b l ih => simp only [sumOf]; omega
+  obtain ⟨hc, _, _, _⟩ := daoChain_ok h
+  obtain ⟨hs, hm⟩ := daoChain_split h
+  rw [hadd] at hc
+  refine ⟨by omega, hs, by omega, hm⟩
+
+example : minerSum ⟨10000000000123456, 500000000123000, 400000000123, 600000000000⟩
+    [⟨50000000000, 29349527985, 500000000, 0, 0⟩, ⟨50000000000, 29349527985, 0, 500000000, 7⟩] =
+    35219433 + 35243190 := by decide
+
+/-- **miners are never paid more than the issuance split allows, over every chain**: on a chain
+whose blocks `1..n` all pass `RewardVerifier` against the reward totals
+`primary t + secondary t + fees t` of their targets, the capacity created by all cellbases is at
+most `Σ_{t ≤ n − delay} primary + Σ secondary + Σ fee shares` (each target once). With
+`issuance_split_over_chain` (`Σ primary + Σ miner secondary = C_n − C_0 − interest − S growth`):
+cellbases + DAO interest + growth of `S` never exceed the growth of `C` plus the fee shares. -/
+theorem minted_le_issuance_plus_fees (w : Win) (primary secondary fees lockOcc : Nat → Nat)
+    (outs : Nat → List (Nat × Bool)) (n : Nat)
+    (h : ∀ i, 1 ≤ i → i ≤ n →
+      rewardVerify w (i - 1)
+        (primary (i - finalizationDelay w) + secondary (i - finalizationDelay w) +
+          fees (i - finalizationDelay w)) (lockOcc i) (outs i) = some .ok) :
+    sumTo (fun i => outsSum (outs i)) n ≤
+      sumTo primary (n - finalizationDelay w) + sumTo secondary (n - finalizationDelay w) +
+        sumTo fees (n - finalizationDelay w) := by
+  have key := (minted_le_finalised_rewards w (fun t => primary t + secondary t + fees t) lockOcc
+    outs n h).1
+  have hadd : ∀ m, sumTo (fun t => primary t + secondary t + fees t) m =
+      sumTo primary m + sumTo secondary m + sumTo fees m := by
+    intro m
+    induction m with
+    | zero => simp [sumTo]
+    | succ m ih => simp only [sumTo, ih]; omega
+  rw [hadd] at key
+  exact key
+
+/-! ## `transaction_maximum_withdraw` on raw inputs: who is a withdrawing cell, and the error paths
+
+`Model/DaoRaw.lean` follows the classification code (`is_dao_type_script`, `is_withdrawing_input`,
+header deps, witness, header-dep index, data loader) that `Model/Dao.lean` took as an input. -/
+
+/-- a cell that is not (NervosDAO type script by `hash_type = Type` and code hash) with (8 loaded
+data bytes holding a non-zero number) counts at exactly its capacity — whatever the witnesses,
+header deps and headers: only withdrawing NervosDAO cells can bring interest into a transaction -/
+theorem non_withdrawing_input_counts_capacity (hdr : Headers) (deps : List Nat)
+    (ws : List RawWitness) (k : Nat) (i : RawInput) (h : isDaoWithdrawing i = false) :
+    rawInputMaxWithdraw hdr deps ws k i = .ok i.cell.cap := by
+  unfold rawInputMaxWithdraw
+  rw [h]
+  rfl
+
+/-- a deposit cell (8 zero bytes) is not a withdrawing cell; neither is a cell whose type script
+has the dao code hash under another hash type, or 7 / 9 data bytes -/
+example : isDaoWithdrawing ⟨⟨10200000000, 0, some 0, 8⟩, some (true, true), some (8, 0), none, false⟩ = false ∧
+    isDaoWithdrawing ⟨⟨10200000000, 0, some 0, 8⟩, some (false, true), some (8, 5), none, false⟩ = false ∧
+    isDaoWithdrawing ⟨⟨10200000000, 0, some 0, 8⟩, some (true, true), some (9, 5), none, false⟩ = false ∧
+    isDaoWithdrawing ⟨⟨10200000000, 0, some 0, 8⟩, some (true, true), some (8, 5), none, false⟩ = true := by
+  decide
+
+/-- **a withdrawing input is accepted iff it is well formed, and then pays by the formula**:
+`transaction_maximum_withdraw`'s summand for input `k` is a value `w` iff either the cell is not a
+withdrawing NervosDAO cell and `w` is its capacity, or it is one and: the block that created it
+(`transaction_info.block_hash`) is among the header deps; witness `k` parses and its `input_type`
+is exactly 8 bytes, read as an index `idx` into the header deps; both headers are known to the
+data loader; and `w = calculate_maximum_withdraw` with the deposit header `deps[idx]` and the
+withdrawing header = the creating block (so `w = occupied + ⌊counted·AR_w/AR_d⌋` within the u64
+domain: `withdraw_eq_formula`). -/
+theorem raw_withdraw_ok_iff (hdr : Headers) (deps : List Nat) (ws : List RawWitness) (k : Nat)
+    (i : RawInput) (w : Nat) :
+    rawInputMaxWithdraw hdr deps ws k i = .ok w ↔
+      (isDaoWithdrawing i = false ∧ w = i.cell.cap) ∨
+      (isDaoWithdrawing i = true ∧ ∃ info idx dep dn da wn wa d,
+        i.txInfo = some info ∧ info.blockHash ∈ deps ∧
+        ws[k]? = some (.args (some (8, idx))) ∧ deps[idx]? = some dep ∧
+        hdr dep = some (dn, da) ∧ hdr info.blockHash = some (wn, wa) ∧
+        capBytes i.cell.dataBytes = .ok d ∧ maxWithdrawWith i.cell d dn da wn wa = .ok w) := by
+  cases hw : isDaoWithdrawing i with
+  | false =>
+    rw [non_withdrawing_input_counts_capacity hdr deps ws k i hw]
+    constructor
+    · intro h; left; exact ⟨by first | rfl | trivial, by cases h; rfl⟩
+    · rintro (⟨_, rfl⟩ | ⟨h, _⟩)
+      · rfl
+      · cases h
+  | true =>
+    unfold rawInputMaxWithdraw
+    rw [hw]
+    simp only [if_true, bind_ok, withdrawingHeaderHash_ok, depositHeaderHash_ok, maxWithdrawRaw_ok]
+    constructor
+    · rintro ⟨wd, ⟨info, h1, h2, rfl⟩, dep, ⟨idx, h3, h4⟩, d, h5, dn, da, wn, wa, h6, h7, h8⟩
+      exact .inr ⟨trivial, info, idx, dep, dn, da, wn, wa, d, h1, h2, h3, h4, h6, h7, h5, h8⟩
+    · rintro (⟨h, _⟩ | ⟨_, info, idx, dep, dn, da, wn, wa, d, h1, h2, h3, h4, h6, h7, h5, h8⟩)
+      · cases h
+      · exact ⟨_, ⟨info, h1, h2, rfl⟩, dep, ⟨idx, h3, h4⟩, d, h5, dn, da, wn, wa, h6, h7, h8⟩
+
+/-- the first-failure order of a withdrawing input, as a decision table: (1) no transaction info or
+its block not among the header deps → `InvalidOutPoint`; then (2) witness `k` missing →
+`InvalidOutPoint`, not a `WitnessArgs` / no `input_type` / not 8 bytes → `InvalidDaoFormat`; then
+(3) index beyond the header deps → `InvalidOutPoint`; then (4) `Capacity::bytes(data_bytes)`
+overflow → `Overflow`; then (5) deposit header unknown, then withdrawing header unknown →
+`InvalidHeader` -/
+theorem raw_withdraw_error_order (hdr : Headers) (deps : List Nat) (ws : List RawWitness) (k : Nat)
+    (i : RawInput) (hw : isDaoWithdrawing i = true) :
+    ((∀ info, i.txInfo = some info → info.blockHash ∉ deps) →
+      rawInputMaxWithdraw hdr deps ws k i = .error .invalidOutPoint) ∧
+    (∀ info, i.txInfo = some info → info.blockHash ∈ deps →
+      (ws[k]? = none → rawInputMaxWithdraw hdr deps ws k i = .error .invalidOutPoint) ∧
+      (ws[k]? = some .malformed → rawInputMaxWithdraw hdr deps ws k i = .error .invalidDaoFormat) ∧
+      (ws[k]? = some (.args none) → rawInputMaxWithdraw hdr deps ws k i = .error .invalidDaoFormat) ∧
+      (∀ len v, ws[k]? = some (.args (some (len, v))) → len ≠ 8 →
+        rawInputMaxWithdraw hdr deps ws k i = .error .invalidDaoFormat) ∧
+      (∀ idx, ws[k]? = some (.args (some (8, idx))) →
+        (deps[idx]? = none → rawInputMaxWithdraw hdr deps ws k i = .error .invalidOutPoint) ∧
+        (∀ dep, deps[idx]? = some dep →
+          (capBytes i.cell.dataBytes = .error .overflow →
+            rawInputMaxWithdraw hdr deps ws k i = .error .overflow) ∧
+          (∀ d, capBytes i.cell.dataBytes = .ok d →
+            (hdr dep = none → rawInputMaxWithdraw hdr deps ws k i = .error .invalidHeader) ∧
+            (∀ x, hdr dep = some x → hdr info.blockHash = none →
+              rawInputMaxWithdraw hdr deps ws k i = .error .invalidHeader))))) := by
+  have hwd_bad : (∀ info, i.txInfo = some info → info.blockHash ∉ deps) →
+      withdrawingHeaderHash deps i = .error .invalidOutPoint := by
+    intro h
+    unfold withdrawingHeaderHash
+    cases hi : i.txInfo with
+    | none => rfl
+    | some info =>
+      have : deps.contains info.blockHash = false := by simpa using h info hi
+      simp only [this]; rfl
+  refine ⟨fun h => ?_, fun info hi hmem => ?_⟩
+  · unfold rawInputMaxWithdraw
+    rw [hw, hwd_bad h]; rfl
+  · have e1 : withdrawingHeaderHash deps i = .ok info.blockHash :=
+      withdrawingHeaderHash_ok.2 ⟨info, hi, hmem, rfl⟩
+    have hidx : ∀ e, depositHeaderIndex ws k = .error e →
+        rawInputMaxWithdraw hdr deps ws k i = .error e := by
+      intro e he
+      unfold rawInputMaxWithdraw depositHeaderHash
+      rw [hw, e1, he]; rfl
+    refine ⟨fun h => hidx _ (by unfold depositHeaderIndex; rw [h]; rfl),
+      fun h => hidx _ (by unfold depositHeaderIndex; rw [h]; rfl),
+      fun h => hidx _ (by unfold depositHeaderIndex; rw [h]; rfl),
+      fun len v h hl => hidx _ (by unfold depositHeaderIndex; rw [h]; exact if_pos hl),
+      fun idx h => ?_⟩
+    have e2 : depositHeaderIndex ws k = .ok idx := depositHeaderIndex_ok.2 h
+    refine ⟨fun hd => ?_, fun dep hd => ?_⟩
+    · unfold rawInputMaxWithdraw depositHeaderHash
+      rw [hw, e1, e2]
+      simp only [if_true]
+      rw [ok_bind, ok_bind, hd]; rfl
+    · have e3 : depositHeaderHash deps ws k = .ok dep := depositHeaderHash_ok.2 ⟨idx, h, hd⟩
+      refine ⟨fun hc => ?_, fun d hc => ⟨fun h1 => ?_, fun x h1 h2 => ?_⟩⟩
+      · unfold rawInputMaxWithdraw
+        rw [hw, e1, e3]
+        simp only [if_true]
+        rw [ok_bind, ok_bind, hc]; rfl
+      · unfold rawInputMaxWithdraw
+        rw [hw, e1, e3]
+        simp only [if_true]
+        rw [ok_bind, ok_bind, hc, ok_bind]
+        unfold maxWithdrawRaw
+        rw [h1]; rfl
+      · unfold rawInputMaxWithdraw
+        rw [hw, e1, e3]
+        simp only [if_true]
+        rw [ok_bind, ok_bind, hc, ok_bind]
+        unfold maxWithdrawRaw
+        rw [h1, h2]; rfl
+
+/-- the failure class of an answer (for the examples) -/
+def errClass (r : R Nat) : Option Err :=
+  match r with
+  | .ok _ => none
+  | .error e => some e
+
+/-- non-vacuity of the table: header ids 1 (deposit, number 5, AR 100) and 2 (withdrawing, number 9,
+AR 110); one well-formed withdrawing input and the same input with one aspect off per line -/
+def demoRawIn : RawInput :=
+  ⟨⟨10000000000, 0, some 0, 8⟩, some (true, true), some (8, 5), some ⟨2, 9, 1⟩, false⟩
+def demoHdr : Headers :=
+  fun h => if h = 1 then some (5, 100) else if h = 2 then some (9, 110) else none
+def demoRawTx : RawTx :=
+  ⟨[demoRawIn, ⟨⟨7000000000, 20, none, 0⟩, none, some (0, 0), some ⟨3, 0, 0⟩, true⟩],
+    [⟨200000000, 0, none, 0⟩], [.args (some (8, 1))], [2, 1]⟩
+
+example :
+    (rawInputMaxWithdraw demoHdr [2, 1] [.args (some (8, 1))] 0 demoRawIn).toOption = some 10180000000 ∧
+    errClass (rawInputMaxWithdraw demoHdr [1] [.args (some (8, 0))] 0 demoRawIn) = some .invalidOutPoint ∧
+    errClass (rawInputMaxWithdraw demoHdr [2, 1] [] 0 demoRawIn) = some .invalidOutPoint ∧
+    errClass (rawInputMaxWithdraw demoHdr [2, 1] [.malformed] 0 demoRawIn) = some .invalidDaoFormat ∧
+    errClass (rawInputMaxWithdraw demoHdr [2, 1] [.args (some (7, 1))] 0 demoRawIn) = some .invalidDaoFormat ∧
+    errClass (rawInputMaxWithdraw demoHdr [2, 1] [.args (some (8, 2))] 0 demoRawIn) = some .invalidOutPoint ∧
+    errClass (rawInputMaxWithdraw demoHdr [2, 3] [.args (some (8, 1))] 0 demoRawIn) = some .invalidHeader ∧
+    errClass (rawInputMaxWithdraw demoHdr [2, 1] [.args (some (8, 0))] 0 demoRawIn) = some .invalidOutPoint := by
+  decide
+
+/-- **several inputs in one transaction**: when `transaction_maximum_withdraw` returns `m`, `m` is
+the plain sum of the per-input values (each characterised by `raw_withdraw_ok_iff` at ITS index:
+witness `j` belongs to input `j`) — any number of NervosDAO inputs, in any position -/
+theorem tx_max_withdraw_is_sum (hdr : Headers) (t : RawTx) (m : Nat)
+    (h : rawTxMaxWithdraw hdr t = .ok m) :
+    ∃ vs : List Nat, vs.length = t.inputs.length ∧
+      (∀ j i, t.inputs[j]? = some i →
+        rawInputMaxWithdraw hdr t.headerDeps t.witnesses j i = .ok (vs.getD j 0)) ∧
+      m = vs.sum := by
+  obtain ⟨vs, hl, hp, hm⟩ := sumRIdx_ok _ t.inputs 0 0 m h
+  refine ⟨vs, hl, fun j i hj => ?_, by omega⟩
+  have := hp j i hj
+  rwa [Nat.zero_add] at this
+
+/-- **the raw calculator refines the kind-level model**: on a transaction all of whose inputs are
+well formed (`txOf` = the `InKind` reading: plain / satoshi / withdrawing with its two headers),
+`transaction_maximum_withdraw`, `transaction_fee`, `input_occupied_capacities` and the per-tx
+sums are those of `Model/Dao.lean` — so every kind-level theorem and every `fee` / `dao`
+comparison of the arith stream speaks about the raw code path too -/
+theorem raw_tx_refines (hdr : Headers) (t : RawTx) (tx : Tx) (h : txOf hdr t = some tx) :
+    rawTxMaxWithdraw hdr t = txMaxWithdraw tx ∧
+    rawTransactionFee hdr t = transactionFee tx ∧
+    rawInputOccupied t = inputOccupied tx ∧
+    rawTxAddedOccupied t = txAddedOccupied tx ∧
+    rawTxInputCapacities t = txInputCapacities tx := by
+  unfold txOf at h
+  cases hk : kindsFrom hdr t.headerDeps t.witnesses 0 t.inputs with
+  | none => rw [hk] at h; simp at h
+  | some ins =>
+    rw [hk] at h
+    simp only [Option.map_some, Option.some.injEq] at h
+    subst h
+    obtain ⟨e1, e2, e3⟩ := sums_refine t.inputs 0 ins 0 hk
+    have e1' : rawTxMaxWithdraw hdr t = txMaxWithdraw ⟨ins, t.outputs⟩ := e1
+    refine ⟨e1', ?_, e2, rfl, e3⟩
+    unfold rawTransactionFee transactionFee outputsCapacity
+    rw [e1']
+
+/-- … and so does the whole DAO rule over a block's transactions -/
+theorem raw_dao_field_refines (hdr : Headers) (ser : Nat) (e : Epoch) (pn : Nat) (p : DaoField)
+    (txs : List RawTx) (txs' : List Tx) (h : txsOf hdr txs = some txs') :
+    rawDaoField hdr ser e pn p txs = daoField ser e pn p txs' := by
+  have r := fun t t' (ht : txOf hdr t = some t') => raw_tx_refines hdr t t' ht
+  unfold rawDaoField daoField freedOccupied addedOccupied rawWithdrawedInterests withdrawedInterests
+  rw [sumR_txs (fun t t' ht => (r t t' ht).2.2.1) txs txs' 0 h,
+    sumR_txs (fun t t' ht => (r t t' ht).2.2.2.1) txs txs' 0 h,
+    sumR_txs (fun t t' ht => (r t t' ht).1) txs txs' 0 h,
+    sumR_txs (fun t t' ht => (r t t' ht).2.2.2.2) txs txs' 0 h]
+
+example :
+    (txOf demoHdr demoRawTx).map (·.inputs) =
+      some [⟨⟨10000000000, 0, some 0, 8⟩, .daoWithdraw 5 100 9 110⟩,
+        ⟨⟨7000000000, 20, none, 0⟩, .satoshi⟩] ∧
+    (rawTransactionFee demoHdr demoRawTx).toOption = some 16980000000 ∧
+    (rawInputOccupied demoRawTx).toOption = some (8200000000 + 4200000000) := by decide
 
 /-! ## NervosDAO withdrawal -/
 
